@@ -75,7 +75,7 @@ func acrhApproved(allowedSorted []string, lines []string) bool {
 var c14NamePool = []string{"a", "ab", "abc", "b", "x-a", "x-ab", "x-abc", "x-b", "foo", "foo-bar", "x-foo", "authorization", "content-type", "zzzzzzzzzzzzzzzzzzzz",
 	"x", "accept", "x-requested-with", "a-", "a-b", "a0", "a!", "b~",
 	"x-trace-id", "x-request-id", "x-api-key", "x-csrf-token", "if-none-match", "if-match", "range", "x-a-b", "x-aa", "x-ab-c", "x-b-a", "x-c", "x-d", "x-e", "x-f", "x-g", "x-h", "x-i",
-	strings.Repeat("n", 63), strings.Repeat("n", 64), "x-" + strings.Repeat("long-", 13), strings.Repeat("q", 128), "x-j", "x-k", "x-l", "x-m", "x-n", "x-o", "x-p", "x-q", "x-r", "x-s", "x-t", "x-u", "x-v", "x-w", "x-x", "x-y", "x-z", "y", "y-a", "z", "z-a", "accept-language", "content-language"}
+	strings.Repeat("n", 63), strings.Repeat("n", 64), "x-" + strings.Repeat("long-", 13), strings.Repeat("q", 128), "b-" + strings.Repeat("huge-", 60), strings.Repeat("m", 255), strings.Repeat("m", 256), "c" + strings.Repeat("w", 257), "x-j", "x-k", "x-l", "x-m", "x-n", "x-o", "x-p", "x-q", "x-r", "x-s", "x-t", "x-u", "x-v", "x-w", "x-x", "x-y", "x-z", "y", "y-a", "z", "z-a", "accept-language", "content-language"}
 
 func normNames(names []Str) []string {
 	set := map[string]bool{}
